@@ -4,3 +4,4 @@ from . import classes  # noqa
 from . import quant  # noqa
 from . import panic  # noqa
 from . import gates  # noqa
+from . import opt  # noqa
